@@ -144,6 +144,21 @@ def decide(ctx, hp, vp):
             rl, wl2 = verify(hl[1], pw=long_pw)
             if wl2.updates != [long_pw]:
                 out["roundtrip"].append({"verify_password feeds the hash object": "%d of %d password bytes" % (sum(len(u) for u in wl2.updates if isinstance(u, bytes)), len(long_pw))})
+        # --- every password takes the same way through both functions, also the degenerate ones (an "empty input" shortcut in the
+        # reader makes the right password fail and turns malformed strings into a verdict)
+        for pw in (b"", b"\x00", b" ", b"0"):
+            we = _World()
+            out["cases"] += 1
+            he = we.evaluator(ctx, hp).call([pw])
+            if he[0] != "return" or not isinstance(he[1], str) or we.updates != [pw]:
+                out["roundtrip"].append({"hash_password(%r)" % pw: repr(he)[:80], "fed to the hash object": repr(we.updates)[:60]})
+                continue
+            re_, we2 = verify(he[1], pw=pw)
+            if re_ != ("return", True) or we2.updates != [pw] or len(we2.scrypt) != 1:
+                out["roundtrip"].append({"verify_password(%r, hash_password(%r))" % (pw, pw): repr(re_)[:80], "fed to the hash object": repr(we2.updates)[:60]})
+            rm_, _wm = verify("scrypt:1", pw=pw)
+            if rm_[0] != "raise" or rm_[1] not in ALLOWED:
+                (out["accepted_malformed"] if rm_[0] == "return" else out["discipline"]).append({"input": "two fields, password %r" % pw, "outcome": repr(rm_)[:80]})
         # --- a failure inside the key derivation is not a verdict: it must leave the function (no broad handler returns False)
         r3_, w3_ = verify(make(), derive_result="library failure")
         if r3_[0] != "raise" or r3_[1] != "UnsupportedAlgorithm":
